@@ -25,7 +25,7 @@ EN_LAYOUTS = {
     'dth of Month yyyy': lambda d: '%d%s of %s %d' % (d.day, suf(d.day), MON_EN[d.month - 1], d.year),
     'the dth of Month, yyyy': lambda d: 'the %d%s of %s, %d' % (d.day, suf(d.day), MON_EN[d.month - 1], d.year),
 }
-EN_CARRIERS = ['{}', 'I will leave on {}', '{} is the deadline', 'see you on {} .']
+EN_CARRIERS = ['{}', 'I will leave on {}', '{} is the deadline', 'see you on {} .', '   {}', '  we meet {}  ']
 
 CULT = {
     'es-es': dict(months=['enero', 'febrero', 'marzo', 'abril', 'mayo', 'junio', 'julio', 'agosto', 'septiembre', 'octubre', 'noviembre', 'diciembre'],
@@ -63,7 +63,7 @@ def layouts(culture):
 
 
 def carriers(culture):
-    return EN_CARRIERS if culture == 'en-us' else CULT[culture]['carriers']
+    return EN_CARRIERS if culture == 'en-us' else CULT[culture]['carriers'] + ['   {}']
 
 
 def dt_model(culture):
